@@ -49,7 +49,8 @@ MANIFEST = dict(
               "specialisation) + typestate check on the event log + "
               "provenance matching",
 )
-FLOORS = {"C14.1": 3, "C14.2": 3, "C14.3": 5, "C14.4": 15}
+FLOORS = {"C14.1": 3, "C14.2": 3, "C14.3": 5, "C14.4": 15, "C14.5": 2}
+TRAJ_ = "evo.core.trajectory.PoseTrajectory3D"
 
 PLANE = "evo.core.trajectory.Plane"
 LETTERS = "xyz"
@@ -79,6 +80,62 @@ def _middle_angle_is_bounded(ctx, prog) -> bool:
     return ok and cy_sqrt
 
 
+ALLOWED_STATE = ("_poses_se3", "_positions_xyz", "_orientations_quat_wxyz",
+                 "_projected", "timestamps", "meta", "poses_se3",
+                 "positions_xyz", "orientations_quat_wxyz", "num_poses")
+
+
+def _own_inputs(ctx, prog, f, selfp):
+    """C14.5: the projection is computed from the poses the object holds
+    *now*. (a) Everything project() reads from `self` — also through the
+    getters it calls — is one of the three pose views (kept coherent by every
+    operation, C08.1), the timestamps, meta or its own one-shot flag: state
+    cached elsewhere (e.g. memoised Euler angles) is not re-selected by
+    reduce_to_ids and would pair pose k with the heading of another pose.
+    (b) no np.roll without an axis on per-pose arrays (it rolls the
+    flattened array: every row receives a component of its neighbour)."""
+    it = Interp(prog, inline=lambda fn: fn.cls is not None and
+                fn.cls.qualname in (PATH, TRAJ_) and fn.name != "project",
+                max_depth=3)
+    r = it.run(f, {}, prog.cls(PATH))
+    reads = set()
+    for e in r.events:
+        for key in ("value", "result", "recv", "base"):
+            v = e.data.get(key)
+            if isinstance(v, T):
+                for x in v.walk():
+                    if x.op == "attr" and x.args[0] is selfp:
+                        reads.add(x.args[1])
+        for v in (e.data.get("args") or ()):
+            for x in v.walk():
+                if x.op == "attr" and x.args[0] is selfp:
+                    reads.add(x.args[1])
+        for x in e.live.walk():
+            if x.op == "attr" and x.args[0] is selfp:
+                reads.add(x.args[1])
+    cls_ = prog.cls(PATH)
+    foreign = sorted(a for a in reads if a not in ALLOWED_STATE and
+                     prog.find_method(cls_, a) is None)
+    ctx.ob("C14.5", f, not foreign,
+           f"project() reads only the pose views / timestamps / its own flag "
+           f"({sorted(reads & set(ALLOWED_STATE))})" if not foreign else
+           f"project() (through the getters it calls) depends on cached "
+           f"state {foreign}: that attribute is not one of the pose views "
+           f"every operation keeps coherent, so after an index reduction "
+           f"pose k is projected with the heading stored for another pose",
+           key="C14.5:reads-own-views", reads=sorted(reads))
+    rolls = [e for e in r.calls("numpy.roll")
+             if "axis" not in dict(e.data["kwargs"]) and
+             len(e.data["args"]) < 3]
+    ctx.ob("C14.5", rolls[0] if rolls else f, not rolls,
+           "project(): no flattening np.roll on per-pose arrays"
+           if not rolls else
+           f"project(): np.roll without `axis` at {rolls[0].where} rolls the "
+           f"flattened per-pose array: each row receives a component of the "
+           f"previous row (correct only for a single pose)",
+           key="C14.5:roll-axis")
+
+
 def check(ctx):
     prog = ctx.prog
     f = prog.func(f"{PATH}.project")
@@ -96,6 +153,8 @@ def check(ctx):
     from .. import vendored
     vendored.check(ctx, "C14.2", ("euler_from_matrix", "_AXES2TUPLE",
                                   "_NEXT_AXIS", "_EPS"))
+
+    _own_inputs(ctx, prog, f, selfp)
 
     for member in planes:
         node = planec.members[member]
